@@ -620,7 +620,16 @@ func (g *gen) invalidate() {
 		m := msgs[r.Below(len(msgs))]
 		return m, m.Sigs[r.Below(len(m.Sigs))]
 	}
-	switch r.Below(14) {
+	switch r.Below(15) {
+	case 14: // the multiplexor switch loses its M: the multiplexed signals have no switch any more
+		for _, m := range msgs {
+			for _, s := range m.Sigs {
+				if s.Muxor && !s.Muxed {
+					s.Muxor = false
+					return
+				}
+			}
+		}
 	case 12: // a multiplexor switch of size 0
 		for _, m := range msgs {
 			for _, s := range m.Sigs {
